@@ -325,4 +325,10 @@ def preprocess (existing : List String) (ms : List Mutation) :
     else pure (acc.1 ++ b.2, acc.2 ++ b.2)) ([], [])
   pure res
 
+/-- what the caller's mutation objects look like after `_preprocess_mutations`: with
+`copies = true` (the optimiser works on `copy.deepcopy(mutations)`) they are untouched -/
+def preprocessC (copies : Bool) (existing : List String) (ms : List Mutation) :
+    Except OptErr (List Mutation × List Mutation) :=
+  if copies then (preprocess existing ms).map (fun r => (r.1, ms)) else preprocess existing ms
+
 end DEvo.Opt
